@@ -69,6 +69,15 @@ class G:
                 t["variants"].append({"n": "VG", "k": "tuple", "fields": [{"n": "", "t": ["gen"], "ren": "", "skip": False}]})
             else:
                 t["fields"].append({"n": "fg" if k == "named" else "", "t": ["gen"], "ren": "", "skip": False})
+        # the derive's data type is generic over the marker type and must use it somewhere
+        # (a type made of plain serde fields only does not compile - and does not need the
+        # derive: the blanket impl covers it), so such shapes are outside the grammar
+        allf = t["fields"] + [f for v in t["variants"] for f in v["fields"]]
+        if not any(f["t"][0] in ("entity", "nested", "gen") for f in allf):
+            if k == "enum":
+                t["variants"].append({"n": "VE", "k": "tuple", "fields": [{"n": "", "t": ["entity"], "ren": "", "skip": False}]})
+            else:
+                t["fields"].append({"n": "fe" if k == "named" else "", "t": ["entity"], "ren": "", "skip": False})
         self.types.append(t)
         return t
 
